@@ -29,9 +29,12 @@ PIPELINES = {
     "X_wrong_order": (["correct_tip_offset", "compute_tip_position"], {}),
     "X_invalid_option": (["compute_tip_position", "correct_tip_offset", "correct_force_slope"],
                          {"correct_force_slope": {"region": "baseline", "strategy": "bogus"}}),
+    # an option name the step does not have (rejected with a TypeError by the call itself)
+    "X_unknown_option": (["compute_tip_position", "correct_tip_offset", "correct_force_slope"],
+                         {"correct_force_slope": {"region": "baseline", "no_such_option": 1}}),
 }
 VALID = ["A", "B", "B2", "B0", "T", "E"]
-INVALID = ["X_missing_prerequisite", "X_unknown_step", "X_invalid_option", "X_wrong_order"]
+INVALID = ["X_missing_prerequisite", "X_unknown_step", "X_invalid_option", "X_wrong_order", "X_unknown_option"]
 
 
 class Sys:
